@@ -474,6 +474,53 @@ func c04(c *core.Ctx) {
 				}
 			}
 		}
+		// in-process server: where an error frame is written, a non-status error is made a status error by a
+		// conversion that knows context errors (FromContextError, or a translator first) — a plain
+		// status.Convert/FromError would turn the handler's own ctx.Err() into Unknown
+		for _, nt := range streamTypes(p, "ServerStream", "SendMsg") {
+			if pkgSuffixOf(nt) != "inprocgrpc" {
+				continue
+			}
+			for i := 0; i < nt.NumMethods(); i++ {
+				fn := p.SSA.FuncValue(nt.Method(i))
+				if fn == nil || fn.Blocks == nil {
+					continue
+				}
+				core.Instrs(fn, func(in ssa.Instruction) {
+					st, ok := in.(*ssa.Store)
+					if !ok || !core.IsErrorValue(st.Val) || core.IsNilConst(st.Val) {
+						return
+					}
+					base, _, isF := core.FieldOf(st.Addr)
+					if !isF || core.NamedOf(base.Type()) != "frame" {
+						return
+					}
+					for _, l := range core.ErrLeaves(st.Val, st) {
+						ec, _, isCall := core.CallResult(l.V)
+						if !isCall || !(core.InfoOf(&ec.Call).Is(istatusPkg+".Status.Err") || core.InfoOf(&ec.Call).Is(statusPkg+".Status.Err")) {
+							continue
+						}
+						// the status whose Err() is sent: how was it made from the handler's error?
+						for _, o := range core.Origins(ec.Call.Args[0]) {
+							mk, _, ok := core.CallResult(o)
+							if !ok {
+								continue
+							}
+							ci := core.InfoOf(&mk.Call)
+							if !(ci.Is(statusPkg+".Convert") || ci.Is(statusPkg+".FromError") || ci.Is(statusPkg+".FromContextError")) {
+								continue
+							}
+							key := core.FuncName(fn) + ":error-frame:conversion-knows-context-errors"
+							okConv := ci.Is(statusPkg+".FromContextError") || core.AllOrigins(mk.Call.Args[0], func(a ssa.Value) bool {
+								tc, _, ok := core.CallResult(a)
+								return ok && isTranslatorCall(&tc.Call, trs)
+							})
+							c.Check(okConv, key, mk.Pos(), "the handler's non-status error is converted with status.FromContextError (or after a context translator)", "the handler's non-status error is converted with "+ci.Name+" without a context translator: a handler returning its own ctx.Err() is reported as Unknown instead of Canceled / DeadlineExceeded")
+						}
+					}
+				})
+			}
+		}
 		// in-process client: returns of a received frame's err
 		for _, fn := range p.LibFuncs("inprocgrpc") {
 			isClientSide := false
